@@ -28,7 +28,7 @@ func init() {
 				"pipeline limiting is enabled and passes that semaphore on.",
 			NotCovered: "the bound (current <= stop) and liveness over all schedules: they follow from the extracted transition " +
 				"table and the lock/wake-up discipline by an invariant argument that the checker does not mechanise.",
-			Rules: map[string]string{"C18-R11": "an accepted connection is handed to its worker or closed on every path; closeListeners closes both listeners unconditionally", "C18-RC": "class rules (error chains, shadowed results, character classes, crossed arguments, pool constructors, array pools, loop completeness, loop-carried buffers, replacing setters, complete clones, Grow arithmetic, pooled-buffer escape, sorted searches, fresh decode targets, per-iteration objects, whole-message copies, codec guards) over the packages this property rests on", "C18-R10": "Shutdown waits for the connections before releasing the worker pool", "C18-R1": "counter transition tables", "C18-R2": "counter state only under counterCond.L",
+			Rules: map[string]string{"C18-R12": "the worker pool of the plain-DNS and DoT servers has no capacity limit, so Submit cannot fail on the accept path and strand a connection with its limiter slot (shared with C01-R9)", "C18-R13": "dnssvc.newListeners passes the configured connection limiter to newListenConfig as it is, for every protocol", "C18-R11": "an accepted connection is handed to its worker or closed on every path; closeListeners closes both listeners unconditionally", "C18-RC": "class rules (error chains, shadowed results, character classes, crossed arguments, pool constructors, array pools, loop completeness, loop-carried buffers, replacing setters, complete clones, Grow arithmetic, pooled-buffer escape, sorted searches, fresh decode targets, per-iteration objects, whole-message copies, codec guards) over the packages this property rests on", "C18-R10": "Shutdown waits for the connections before releasing the worker pool", "C18-R1": "counter transition tables", "C18-R2": "counter state only under counterCond.L",
 				"C18-R3": "Broadcast after every state change that can release waiters; no Signal",
 				"C18-R4": "slot taken/released exactly once on every accept/close path", "C18-R8": "Close marks the listener closed and wakes all waiting accepts on every path, also when the underlying listener's Close fails",
 				"C18-R7": "limiter wiring: New builds one shared counter with the configured thresholds; Limit hands every listener that shared counter and condition variable; the limiting ListenConfig wraps every stream listener; dnssvc wraps the listen config whenever a limiter is configured; the YAML thresholds reach New unchanged",
@@ -37,6 +37,14 @@ func init() {
 }
 
 func runC18(c *an.Ctx) {
+	// ---- R12: the servers' worker pool is unbounded, so that a Submit on the accept path cannot fail under load and
+	// leave an accepted connection (and its limiter slot) open for ever (shared with C01-R9); R13: every listener gets
+	// the configured limiter as it is
+	c.Floor("C18-R12", 1)
+	c.Borrow("C18-R12", runC01, func(o an.Obligation) bool { return o.Rule == "C01-R9" && strings.Contains(o.Key, "newPoolNonblocking") })
+	if n := c18LimiterVerbatim(c, "C18-R13"); n < 1 {
+		c.Und("C18-R13", "limiter arguments of newListenConfig", token.NoPos, "no call of dnssvc.newListenConfig with a limiter parameter found")
+	}
 	c.Floor("C18-R11", 2)
 	c18AcceptedConn(c)
 	classSweep(c, "C18")
@@ -806,4 +814,42 @@ func c18AcceptedConn(c *an.Ctx) {
 			"both listeners are closed on the single path to the only return",
 			fmt.Sprintf("%d Close calls and %d returns: an early return after a failed Close leaves the other listener open, and its accept loop keeps its limiter slot", closes, len(an.Returns(fn))))
 	}
+}
+
+// c18LimiterVerbatim: every listener is built with the service's connection
+// limiter as it is.  The decision which network of which protocol is wrapped
+// belongs to newListenConfig (see the table of C20-R12); a limiter that is
+// replaced on some path before it gets there (nil for protocols thought to have
+// no stream connections) leaves the TCP listeners of that protocol outside the
+// shared count.
+func c18LimiterVerbatim(c *an.Ctx, rule string) (examined int) {
+	for _, fn := range c.Prog.FnsMatching("dnssvc.") {
+		if fn.Blocks == nil || c.IsTestFile(fn.Pos()) {
+			continue
+		}
+		for _, call := range an.Calls(fn) {
+			callee := an.StaticCallee(call)
+			if callee == nil || an.FnKey(callee) != "dnssvc.newListenConfig" {
+				continue
+			}
+			for i, p := range callee.Params {
+				if !strings.Contains(an.TypeName(an.Deref(p.Type())), "connlimiter.Limiter") {
+					continue
+				}
+				examined++
+				c.Analysed(an.FnKey(fn))
+				a := call.Common().Args[i]
+				ok := false
+				if ld, isLoad := a.(*ssa.UnOp); isLoad && ld.Op == token.MUL {
+					if _, f, _, isField := an.FieldOf(ld.X); isField && f == "ConnLimiter" {
+						ok = true
+					}
+				}
+				c.Check(ok, rule, fmt.Sprintf("%s hands the configured limiter to newListenConfig (call %d)", an.FnKey(fn), siteIndex(fn, call)), call.Pos(),
+					"the argument is the ConnLimiter field of the configuration, as it is",
+					"the limiter given to newListenConfig is computed ("+a.String()+"), not the configured one as it is: some listeners are built without the shared limiter")
+			}
+		}
+	}
+	return examined
 }
